@@ -5,7 +5,7 @@ From Coq Require Import List Bool Arith NArith ZArith String.
 From Coq.Strings Require Import Byte.
 From Verif.Base Require Import Bytes Outcome Str.
 From Verif.Model Require Import IE Codec Record SetB Msg Exporter Rfc7011.
-From Verif.Proofs Require Import SetB_lemmas Exporter_lemmas C08_lemmas Rfc_lemmas.
+From Verif.Proofs Require Import SetB_lemmas Exporter_lemmas C08_lemmas Rfc_lemmas RfcData_lemmas RfcApi_lemmas C09_oracle.
 From Verif.Driver Require Import Show SetShow HistShow RfcCheck C02drv.
 Import ListNotations.
 Local Open Scope N_scope.
@@ -42,14 +42,112 @@ Theorem C02_field_specifier : forall e rest,
 Proof. exact parse_fspec_spec. Qed.
 Print Assumptions C02_field_specifier.
 
-(* NOT PROVED (partial): the data-record clause for all values,
-     forall tpl recs, Forall (wf_record ..) recs -> send succeeds ->
-       rfc_parse (widths of tpl) bytes = Some {.. WData (map (map rfc_value) recs)}
-   i.e. parse_drecs over the concatenation of the record buffers returns the RFC 6.1 octets
-   (rfc_value) of every value. What is missing is the per-type lemma
-   enc e v = prefix ++ rfc_value e v for the 18 types; C02_frame reduces the clause to exactly
-   that. The clause is checked on every run by the extracted rfc_parse on the REAL bytes of
-   every data message (oracle rfc_demand), and on the model below for concrete sets. *)
+(* One field of a data record: on a well-typed value (wf_value: the Go kind is the element's
+   data type, the number is in range of that type, the element has the type's width) the
+   encoder writes the RFC 7011 6.1 octets of the value (rfc_value: big-endian at the type's
+   width, two's complement, IEEE bits, 1/2 for booleans, 6/4/16 raw address octets, the bytes
+   of strings and octet arrays), preceded exactly for a variable-length element by the
+   section 7 prefix (one octet below 255, else 0xFF and two octets) - all 18 element kinds. *)
+Theorem C02_field_octets : forall e v bs,
+  wf_value e v = true -> enc e v = Some bs ->
+  exists c, rfc_value e v = Some c /\ bs = rfc_field (ie_len e) c /\ field_fits (ie_len e) c.
+Proof. exact enc_is_rfc. Qed.
+Print Assumptions C02_field_octets.
+
+(* ... and the independent parser, given the template's width, reads exactly those octets *)
+Theorem C02_field_parse : forall w c rest,
+  field_fits w c -> parse_field w (rfc_field w c ++ rest) = Some (c, rest).
+Proof. exact parse_field_spec. Qed.
+Print Assumptions C02_field_parse.
+
+(* Data sets, complete: every transmitted data set (any number of records, built by any
+   operations) whose records are well-typed records of one template with widths [ws] (some
+   width non-zero: records of zero octets cannot be counted by any decoder) parses, with those
+   widths, to set id = the id PrepareSet wrote and, per record and field, the RFC octets of the
+   value given ([expected_data] = rfc_value of every value, in order). *)
+Theorem C02_data_sets : forall widths st ops t bytes ws,
+  let s := set_of ops in
+  st_wf st -> r_wire (send_set cur st s t) = Some bytes ->
+  256 <= hdr_id s -> widths (hdr_id s) = Some ws -> Exists (fun w => w <> 0) ws ->
+  Forall (data_rec_ok ws) (s_recs s) ->
+  exists d, expected_data s = Some d /\
+  rfc_parse widths bytes =
+    Some (mkWM 10 (blen bytes) (t mod 2 ^ 32) (seq_next (x_seq st) s mod 2 ^ 32) (x_obs st mod 2 ^ 32)
+               (hdr_id s) (blen bytes - 16) (WData d)).
+Proof. exact wellformed_data_set_tpl. Qed.
+Print Assumptions C02_data_sets.
+
+(* The same at the level of the API calls: PrepareSet(Data, tid), one add per record in any
+   of the three forms (k >= 0), SendSet. For every template (widths ws, one of them non-zero),
+   every list of well-typed records of it and every state in which the send succeeds, the
+   independent parser, given ws for tid, returns set id tid and the RFC octets of every value. *)
+Theorem C02_data_exchange : forall widths st tid frs t bytes ws,
+  let s := set_of (OPrepare SData tid :: add_ops tid frs) in
+  st_wf st -> r_wire (send_set cur st s t) = Some bytes ->
+  256 <= tid < 65536 -> widths tid = Some ws -> Exists (fun w => w <> 0) ws ->
+  Forall (fun fr => form_ok (fst fr) = true /\ wf_record (snd fr) = true /\ widths_of (snd fr) = ws) frs ->
+  exists d, opt_all (map (fun fr => octets_of (snd fr)) frs) = Some d /\
+  rfc_parse widths bytes =
+    Some (mkWM 10 (blen bytes) (t mod 2 ^ 32) (seq_next (x_seq st) s mod 2 ^ 32) (x_obs st mod 2 ^ 32)
+               tid (blen bytes - 16) (WData d)).
+Proof. exact data_exchange. Qed.
+Print Assumptions C02_data_exchange.
+
+(* The headline: frame + template records + data records. Every message SendSet transmits
+   for a set in scope (c02_scope: a template set of records within the specifier ranges, or a
+   data set of well-typed records of the template known for its id) is accepted by the
+   independent parser as version 10, length = bytes sent, one set covering the rest, the set
+   id of the header, and the expected body. *)
+Theorem C02_wellformed : forall widths st ops t bytes,
+  let s := set_of ops in
+  st_wf st -> r_wire (send_set cur st s t) = Some bytes -> c02_scope widths s ->
+  exists body, expected_body s = Some body /\
+  rfc_parse widths bytes =
+    Some (mkWM 10 (blen bytes) (t mod 2 ^ 32) (seq_next (x_seq st) s mod 2 ^ 32) (x_obs st mod 2 ^ 32)
+               (hdr_id s) (blen bytes - 16) body).
+Proof. exact wellformed_message. Qed.
+Print Assumptions C02_wellformed.
+
+(* "set id 2 for templates and the template id for data": the id in the header of a set
+   prepared once and then filled is the one PrepareSet was given *)
+Theorem C02_set_id : forall ty id rest,
+  forallb keeps_id rest = true ->
+  hdr_id (set_of (OPrepare ty id :: rest)) =
+  match ty with STemplate => 2 | SData => id mod 65536 | SUndefined => 0 end.
+Proof. exact set_id_on_wire. Qed.
+Print Assumptions C02_set_id.
+
+(* non-vacuity of the data clause: a data set of two records (unsigned8, enterprise string, IPv4 given in its 16-byte form) under a registered template is sent and is
+   in scope *)
+Definition c02_u8 : ie := mkIE "x" 4 Unsigned8 0 1.
+Definition c02_str : ie := mkIE "s" 13 String_ 29305 65535.
+Definition c02_ip : ie := mkIE "a" 8 Ipv4Address 0 4.
+Definition c02_st : exp := mkExp 7 0 [(300, ([c02_u8; c02_str; c02_ip], 6))] false.
+Definition c02_ops : list op :=
+  [OPrepare SData 300;
+   OAdd FV1 [(c02_u8, VU8 5); (c02_str, VStr [x41; x42]); (c02_ip, VIP (Some (v4_prefix ++ [x0a; x00; x00; x01])))] 300;
+   OAdd FV2 [(c02_u8, VU8 0); (c02_str, VStr []); (c02_ip, VIP (Some [x0a; x00; x00; x02]))] 300].
+Example C02_data_nonvacuous :
+  (exists bytes, r_wire (send_set cur c02_st (set_of c02_ops) 0) = Some bytes) /\
+  c02_scope (fun _ => Some [1; 65535; 4]) (set_of c02_ops).
+Proof.
+  split.
+  - vm_compute. eexists. reflexivity.
+  - right. split; [vm_compute; discriminate|]. exists [1; 65535; 4]. split; [reflexivity|].
+    split; [left; discriminate|].
+    repeat (constructor; [repeat split; vm_compute; reflexivity|]). constructor.
+Qed.
+
+(* The per-case oracle of the check (C02_holds_on: every successful call whose bytes were
+   reported in full returned their number, and for a set in scope the bytes satisfy rfc_demand -
+   the independent parser's reading equals the expectation built from the case) holds on the
+   model's own observation of EVERY case whose sets satisfy case_set_ok (Driver/RfcCheck.v: one
+   PrepareSet per set, values of data records are Go values of their elements' kinds). *)
+Theorem C02_oracle_on_model : forall c,
+  forallb (fun ds => case_set_ok (set_of (ops_of ds))) (hc_sends c) = true ->
+  C02_holds_on c (hist_model cur c) = true.
+Proof. exact c02_oracle_on_model. Qed.
+Print Assumptions C02_oracle_on_model.
 
 (* non-vacuity / concrete evidence for the data clause: one template, two records with a
    string at the 255 boundary, signed and enterprise-specific elements *)
